@@ -184,7 +184,7 @@ def executable_lines(path):
     while todo:
         c = todo.pop()
         if c.co_flags & 0x1:  # CO_OPTIMIZED: function bodies only (module and class bodies run at import, before monitoring)
-            lines.update(l for _, _, l in c.co_lines() if l)
+            lines.update(l for _, _, l in c.co_lines() if l and l != c.co_firstlineno)  # the def line fires no LINE event
         todo.extend(k for k in c.co_consts if hasattr(k, "co_lines"))
     return lines
 
